@@ -203,8 +203,54 @@ def has_false_show_with_element(v, st):
     return any(has_false_show_with_element(c, st) for c in kids)
 
 
+def nohydrate_marker_conflict(v):
+    """matcher of F16: in some parent, a marker emitted inside NoHydrate precedes a hydrated construct that searches for the same kind of marker"""
+    def flat(vs, noh):
+        out = []
+        for x in vs:
+            if x[0] in ("frag", "comp"):
+                out += flat(x[1], noh)
+            elif x[0] == "nohydrate":
+                out += flat(x[1], True)
+            else:
+                out.append((x, noh))
+        return out
+
+    def conflict(kids):
+        seq = flat(kids, False)
+        for i, (x, noh) in enumerate(seq):
+            if not noh:
+                continue
+            kind = "t" if x[0] == "dyntext" else ("/" if x[0] in ("dyn", "show") else None)
+            if kind is None:
+                continue
+            for y, noh2 in seq[i + 1:]:
+                if noh2:
+                    continue
+                if kind == "t" and y[0] == "dyntext":
+                    return True
+                if kind == "/" and y[0] in ("dyn", "show", "list"):
+                    return True
+        return False
+
+    def rec(x):
+        k = x[0]
+        kids = x[3] if k == "el" else (x[2] + x[3] if k == "dyn" else (x[3] if k == "list" else (x[2] if k == "show" else (x[1] if k in ("frag", "comp", "nohydrate", "nossr") else []))))
+        if k == "el" and conflict(kids):
+            return True
+        if k == "dyn" and (conflict(x[2]) or conflict(x[3])):
+            return True
+        if k in ("show", "list") and conflict(kids):
+            return True
+        return any(rec(c) for c in kids)
+    return conflict([v]) or rec(v)
+
+
 def classify(o, v, st=None):
     """structural matchers of the known findings of C09"""
+    if nohydrate_marker_conflict(v) and (o["what"].startswith(("hydration changed", "hydrated DOM differs", "server-rendered elements")) or "not found" in o.get("message", "")
+                                         or o["what"].startswith("after hydration")):
+        return "F16-nohydrate-markers"
     if "not found" in o.get("message", "") and st is not None and has_false_show_with_element(v, st):
         return "F10-show-false-hydration"
     msg = o.get("message", "")
@@ -216,6 +262,8 @@ def classify(o, v, st=None):
         return "F13-show-dynamic-text"
     if "node is not hydrated" in msg and has_list(v):
         return "F11-list-hydration-markers"
+    if c05.has_toplevel_nossr(v) and "<no-ssr" in o.get("dom", ""):
+        return "F15-nossr-marker-in-snapshot"
     if c05.has_toplevel_dynamic_child(v):
         return "F9-toplevel-dynamic-child"
     return None
